@@ -1,4 +1,5 @@
-"""Leg T for frames (C11, C06, C17): recorded executions validated against FrameTrace.tla."""
+"""Leg T for frames (C11, C06, C17, C03, C12): recorded executions validated against FrameTrace.tla."""
+import logging
 import json
 import os
 import subprocess
@@ -12,10 +13,17 @@ def frame_trace_leg(ctx, pid):
     """Free-form recorded frame lives (harness/adapters/frametrace.py) and the repository's own non-voltage tests run
     under harness/record_frame.py, validated event by event against FrameTrace.tla.  Clauses are owned by the property
     whose id prefixes them; `cont_estimate` (the estimate a frame holds is the one the previous recorded call left)
-    belongs to C11 and is judged on driver traces only (a repository test may assign estimates directly)."""
+    belongs to C11 and is judged on driver traces only (a repository test may assign estimates directly); so is
+    `C12_data_changed_only_by_own_calls` (the specification switches it off for traces whose header says `strict: false`).
+    `cont_file` (recorder and specification count the same saves per path) is a machinery clause: its failure is an error."""
     n = ctx.pick(120, 2000)
-    base = 7000003 * ctx.seed + {"C11": 0, "C06": 300000, "C17": 600000}.get(pid, 900000)
-    traces = [frametrace.drive(base + k, nops=ctx.pick(16, 20)) for k in range(n)]
+    base = 7000003 * ctx.seed + {"C11": 0, "C06": 300000, "C17": 600000, "C03": 1200000, "C12": 1500000}.get(pid, 900000)
+    lvl = logging.root.manager.disable
+    logging.disable(logging.CRITICAL)          # blimpy narrates every file it writes
+    try:
+        traces = [frametrace.drive(base + k, nops=ctx.pick(16, 20)) for k in range(n)]
+    finally:
+        logging.disable(lvl)
     origin = ["driver seed %d" % (base + k) for k in range(n)]
     out = os.path.join(ctx.outdir, "repo_frame_traces.json")
     repo = os.environ.get("VERIF_REPO", "/repo")
@@ -38,6 +46,8 @@ def frame_trace_leg(ctx, pid):
     for t in traces:
         for ev in t["ev"]:
             k = ev["e"] + ("" if ev.get("st", "ok") == "ok" else "!")
+            if ev["e"] == "Create" and ev.get("how") in ("file", "pickle") and ev.get("gen", 0) > 0:
+                kinds["Load-of-recorded-save:" + ev["how"]] = kinds.get("Load-of-recorded-save:" + ev["how"], 0) + 1
             kinds[k] = kinds.get(k, 0) + 1
     nev = sum(len(t["ev"]) for t in traces)
     accepted, rejects, res = trace.validate("FrameTrace", "FrameTrace.cfg", traces, ctx.outdir)
@@ -45,7 +55,8 @@ def frame_trace_leg(ctx, pid):
     ctx.traces += len(traces)
     ctx.steps += nev
     ctx.notes["frame_trace_events_by_kind"] = kinds
-    for need in ("Create", "Noise", "Noise!", "ZeroData", "Signal", "Signal!", "Snr", "Snr!", "Derive"):
+    for need in ("Create", "Noise", "Noise!", "ZeroData", "Signal", "Signal!", "Snr", "Snr!", "Derive", "Save", "Copy",
+                 "Load-of-recorded-save:file", "Load-of-recorded-save:pickle"):
         if kinds.get(need, 0) == 0:
             raise RuntimeError("vacuity: no %s event in any recorded frame trace" % need)
     if len(ctx.samples) < 4:
@@ -55,6 +66,8 @@ def frame_trace_leg(ctx, pid):
         at = r["at"]
         ev = t["ev"][at - 1] if at - 1 < len(t["ev"]) else {"e": "(end)"}
         why = sorted(r["why"])
+        if "cont_file" in why:
+            raise RuntimeError("recorder and FrameTrace.tla disagree on the number of saves to a path (%s, event %d)" % (origin[r["reject"] - 1], at))
         mine = [w for w in why if w.startswith(pid + "_")]
         if pid == "C11":
             mine += [w for w in why if w.startswith("no-action")]
@@ -64,7 +77,8 @@ def frame_trace_leg(ctx, pid):
             ctx.notes["rejected_for_other_property"] = ctx.notes.get("rejected_for_other_property", 0) + 1
             continue
         args = {"event": ev["e"], "action": ev["e"], "src": ev.get("src"), "kind": ev.get("kind"), "status": ev.get("st"),
-                "clauses": "+".join(mine), "first_noise": (ev.get("before") or {}).get("zero")}
+                "clauses": "+".join(mine), "first_noise": (ev.get("before") or {}).get("zero"),
+                "how": ev.get("how"), "fmt": ev.get("fmt") or (ev.get("sig") or {}).get("fmt")}
         ctx.violation("FrameTrace", "trace:" + mine[0], args,
                       {"origin": origin[r["reject"] - 1], "event_index": at, "failing_clauses": why, "event": ev,
                        "previous_events": [[e["e"], e.get("src"), e.get("st", "ok")] for e in t["ev"][max(0, at - 6):at - 1]]})
